@@ -158,7 +158,7 @@ def run(ctx):
                               "`%s` sizes by the input table's rows; after Delay splitting there are more time points than rows, "
                               "so a process that is still open at the end of the file is cut short by the number of delayed "
                               "groups" % norm(c)[:50], desc="`%s` sized by the split table" % norm(c)[:40])
-        ctx.floor("R20.3", "len()/range() uses after the Delay split", n_len, 2)
+        ctx.floor("R20.3", "len()/range() uses after the Delay split", n_len, 1)
 
     # consumers of the manager size their per-time-point results by the manager's time points, not by the input table
     n_cons = 0
